@@ -128,6 +128,29 @@ func execC11(x *X, scAny any) {
 			}
 		}
 	}
+	// (h) "at the latest the next call uses a fresh connection and succeeds": one fault costs at most one call.
+	// Calls that carry their own cancellation or deadline, and calls started after Close, are not counted.
+	budget := 0
+	for _, k := range []string{"eof", "reset", "closed", "epipe", "short-write", "dial-fail", "server-close-after-reply", "server-reset-after-reply", "server-partial-reply", "server-close-before-reply", "server-no-reply", "data+eof"} {
+		budget += x.S.Faults[k]
+	}
+	failed := 0
+	var firstTwo []string
+	for _, rec := range w.calls {
+		if !rec.returned || rec.err == nil || rec.startedAfterClose || rec.ctxKind != "" || rec.kind == "clone-request" {
+			continue
+		}
+		if w.closeSeq > 0 && rec.endSeq > w.closeSeq {
+			continue // Close was called before this call had returned: it may fail for that reason
+		}
+		failed++
+		if len(firstTwo) < 3 {
+			firstTwo = append(firstTwo, fmt.Sprintf("c%d/%d: %v", rec.caller, rec.idx, rec.err))
+		}
+	}
+	if failed > budget {
+		x.Reportf("C11.no-recovery", "more-failed-calls-than-faults", "%d call(s) failed although only %d fault(s) were injected: %s", failed, budget, strings.Join(firstTwo, "; "))
+	}
 	// (g) nothing left behind after Close
 	if w.closeReturned {
 		if alive := x.S.AliveSUT("kmipclient"); len(alive) > 0 {
@@ -251,6 +274,14 @@ func c11SweepFloor(tier string) []*ClientSc {
 		return sc
 	}
 	out := []*ClientSc{mk([]ReqBehav{{CloseAfter: true}, {}}, false)}
+	// a fault on the write of the first request, then the next call at every single-preemption schedule
+	for _, kind := range []string{"reset", "epipe", "short-write"} {
+		for op := 1; op <= 2; op++ {
+			sc := mk([]ReqBehav{{}, {}}, false)
+			sc.Conns = []ConnSc{{Plan: []simnet.FaultAt{{Op: op, Kind: kind}}}}
+			out = append(out, sc)
+		}
+	}
 	if tier == "thorough" {
 		out = append(out, mk([]ReqBehav{{}, {CloseAfter: true}}, true), mk([]ReqBehav{{CloseBefore: true}, {}}, false), mk([]ReqBehav{{ResetAfter: true}, {}}, true))
 	}
